@@ -198,6 +198,20 @@ def op_cover(ops, init, rng, extend):
     return out, sum(len(v) for v in ops.values())
 
 
+def step_kinds(paths):
+    """histogram of the atomic steps in the schedules: 'position before -> position after' per thread"""
+    h = collections.Counter()
+    for p in paths:
+        at = {}
+        for a in p:
+            if a["k"] == "call":
+                at[a["t"]] = a["at"]
+            elif a["k"] == "step":
+                h["%s->%s" % (at.get(a["t"], "?"), a["at"])] += 1
+                at[a["t"]] = a["at"]
+    return h
+
+
 def dump_graph(n, sequential, wd, tag):
     c = core.cfg(spec="Spec", constants={"N": n, "Sequential": sequential, "TrackAct": True},
                  invariants=["InitDump"], view="View", action_constraints=["EdgeDump"])
@@ -249,6 +263,17 @@ def model_check(out, wd, tier, tot, cov):
             cov[a] = (o[0] + d, o[1] + t)
         core.log("[C17] M  N=%d: %d distinct states, %d generated, depth %d: invariants, Linearizable (M refines P), "
                  "liveness hold (%.1fs)" % (n, r.distinct, r.generated, r.depth, r.wall))
+    if os.environ.get("VERIF_C17_N4"):
+        # opt-in (about 2.1e6 states, 5..20 minutes): the generic multi_party_coordinator::<4>, model only - the code
+        # path is the same CAS loop as for N = 3 but N = 4 cannot be constructed from outside the crate.
+        c = core.cfg(spec="Spec", constants={"N": 4, "Sequential": False, "TrackAct": False},
+                     invariants=M_INVS, properties=["Linearizable", "S4_Latch", "S2_StaysOut"])
+        r = core.run_tlc("MC_TimeoutCoord", c, os.path.join(wd, "m4"), workers=4, timeout=3000)
+        if not r.ok:
+            raise core.ToolError("M violates P in TLC (%s %s) for N=4:\n%s" % (r.status, r.violated, r.counterexample[:4000]))
+        tot["n4_states"] += r.distinct
+        core.log("[C17] M  N=4 (model only): %d distinct states, %d generated: invariants and Linearizable hold (%.1fs)" % (
+            r.distinct, r.generated, r.wall))
 
 
 def run(tier, out):
@@ -263,20 +288,30 @@ def run(tier, out):
 
     stats = {k: dict(cases=0, steps=0, conform=0, drift=0, rejected=0, unjudged=0) for k in ("seq", "conc")}
     p_samples = {2: [], 3: []}
+    tot_kinds = collections.Counter()
 
-    def run_cases(n, mode, paths, tag):
-        cases = [{"id": "%s.%d" % (tag, i), "cfg": {"n": n, "mode": mode}, "acts": p} for i, p in enumerate(paths)]
-        results = rp.run_cases(MEMBER, BIN, cases, wd, tag=tag, input_keys=INPUT_KEYS)
+    def run_cases(n, mode, paths, tag, chunk=40000):
+        """replay in chunks (bounded memory); returns the first chunk's cases and results for the samples"""
+        first = None
         st = stats[mode]
-        st["cases"] += len(cases)
-        triage(out, judge, n, cases, results, "TimeoutCoord[N=%d,%s]" % (n, mode), st)
-        for c_, r_ in list(zip(cases, results))[:: max(1, len(cases) // 40)]:
-            if "ev" in r_ and not r_.get("hang") and not r_.get("panic"):
-                p_samples[n].append(trace_of(r_))
-        return cases, results
+        for lo in range(0, len(paths), chunk):
+            cases = [{"id": "%s.%d" % (tag, lo + i), "cfg": {"n": n, "mode": mode}, "acts": p}
+                     for i, p in enumerate(paths[lo:lo + chunk])]
+            results = rp.run_cases(MEMBER, BIN, cases, wd, tag=tag, input_keys=INPUT_KEYS)
+            st["cases"] += len(cases)
+            triage(out, judge, n, cases, results, "TimeoutCoord[N=%d,%s]" % (n, mode), st)
+            for c_, r_ in list(zip(cases, results))[:: max(1, len(paths) // 40)]:
+                if "ev" in r_ and not r_.get("hang") and not r_.get("panic"):
+                    p_samples[n].append(trace_of(r_))
+            if first is None:
+                first = (cases, results)
+            if st["rejected"] >= 4 * MAX_REPORT:
+                out.notes.append("replay of %s stopped early: enough violations to report" % tag)
+                break
+        return first if first else ([], [])
 
     # ---- B1-sequential
-    depth = {2: 6 if quick else 8, 3: 5 if quick else 6}
+    depth = {2: 6 if quick else 7, 3: 5 if quick else 6}
     for n in (2, 3):
         r, g = dump_graph(n, True, wd, "gseq%d" % n)
         ops = op_graph(g)
@@ -300,7 +335,7 @@ def run(tier, out):
         if n == 2 or not quick:
             r, g = dump_graph(n, False, wd, "gconc%d" % n)
             paths = g.covering_paths(extend=6, rng=rng)
-            paths += g.random_walks(300 if quick else 3000, 60, rng)
+            paths += g.random_walks(300 if quick else 2000, 60, rng)
             tot["transitions"] += g.n_edges
             tot["conc_graph_edges_covered"] += g.n_edges
             how = "transition cover of the concurrent graph (%d states, %d edges) + random walks" % (len(g.nodes), g.n_edges)
@@ -311,8 +346,12 @@ def run(tier, out):
         paths += sim
         tot["tlc_simulated_behaviours"] += len(sim)
         cases, results = run_cases(n, "conc", paths, "conc%d" % n)
-        core.log("[C17] B1-conc N=%d: %d interleavings imposed on real threads (%s%s%d TLC-simulated behaviours)" % (
-            n, len(cases), how, "; " if how else "", len(sim)))
+        kinds = step_kinds(paths)
+        for k_, v_ in kinds.items():
+            tot_kinds["N=%d %s" % (n, k_)] += v_
+        core.log("[C17] B1-conc N=%d: %d interleavings imposed on real threads (%s%s%d TLC-simulated behaviours); "
+                 "CAS-retry steps replayed: %d" % (n, len(paths), how, "; " if how else "", len(sim),
+                                                  kinds.get("compare_exchange->load", 0)))
         if n == 3:
             i = next((j for j, c in enumerate(cases) if sum(1 for a in c["acts"] if a["k"] == "step" and a.get("at") == "load") >= 2), 0)
             out.sample({"binding": "B1-concurrent", "n": n, "schedule_with_expected_positions": cases[i]["acts"][:14],
@@ -328,7 +367,7 @@ def run(tier, out):
         tot["p_sampled_histories"] += len(p_samples[n])
 
     # ---- B2 stress
-    stress(out, judge, wd, rng, tot, runs=300 if quick else 6000, ops=10 if quick else 14)
+    stress(out, judge, wd, rng, tot, runs=300 if quick else 4000, ops=10 if quick else 14)
 
     for mode in ("seq", "conc"):
         st = stats[mode]
@@ -346,6 +385,7 @@ def run(tier, out):
             stress_overlapping_calls=tot["stress_overlap"],
             p_trace_events_validated=judge.events, p_sampled_histories=tot["p_sampled_histories"],
             model_drift=stats["seq"]["drift"] + stats["conc"]["drift"],
+            replayed_atomic_steps_by_kind=dict(sorted(tot_kinds.items())),
             action_coverage={a: {"distinct": d, "taken": t} for a, (d, t) in sorted(cov.items())},
             actions_never_taken=never, exhaustive=True,
             rule="a case is one call sequence (B1-seq), one schedule of atomic steps on real threads (B1-conc) or one "
